@@ -1,0 +1,44 @@
+//go:build verif
+// +build verif
+
+package majority
+
+// Contracts for gocv (comment-only; compiled out unless the tag "verif" is set, and empty then).
+
+// This listener's definitions of the abstract predicates of model.BiasListener
+//@ pred mjValid(l model.BiasListener, p model.MethodParameters) = typeis(p, MajorityHeuristicParams)
+//@ pred mjCovers(l model.BiasListener, p model.MethodParameters, id string) = typeis(p, MajorityHeuristicParams) && id in p.(MajorityHeuristicParams).Weights
+//@ pred mjAcceptsAny(l model.BiasListener, x model.MethodParameters) = typeis(x, model.WeightType)
+//@ pred mjAccepts(l model.BiasListener, x model.MethodParameters, id string) = typeis(x, model.WeightType) && id in x.(model.WeightType).Weights
+
+//@ func (*MajorityBiasListener).OnCriteriaRemoved
+//@   property C07 C15
+//@   refines model.BiasListener.OnCriteriaRemoved with validParams=mjValid, coversId=mjCovers
+//@   ensures [rest_kept] result.(MajorityHeuristicParams).CurrentChoice == params.(MajorityHeuristicParams).CurrentChoice
+//@             && result.(MajorityHeuristicParams).RandomSeed == params.(MajorityHeuristicParams).RandomSeed
+//@             && result.(MajorityHeuristicParams).RandomAlternativesOrdering == params.(MajorityHeuristicParams).RandomAlternativesOrdering
+//@             && result.(MajorityHeuristicParams).DrawResolution == params.(MajorityHeuristicParams).DrawResolution
+//@   ensures [weights_restricted] forall k int :: 0 <= k && k < len(*leftCriteria) ==>
+//@             result.(MajorityHeuristicParams).Weights[(*leftCriteria)[k].Id] == params.(MajorityHeuristicParams).Weights[(*leftCriteria)[k].Id]
+
+//@ func (*MajorityBiasListener).OnCriterionAdded
+//@   property C07 C18
+//@   fnparam generator ensures 0.0 <= result && result < 1.0
+//@   refines model.BiasListener.OnCriterionAdded with validParams=mjValid, coversId=mjCovers, accepts=mjAccepts, acceptsAny=mjAcceptsAny
+//@   ensures [weight_is_fraction_of_reference] model.fractionOf(result.(model.WeightType).Weights[criterion.Id], params.(MajorityHeuristicParams).Weights[referenceCriterion.Id])
+
+//@ func (*MajorityBiasListener).Merge
+//@   property C07 C18
+//@   refines model.BiasListener.Merge with validParams=mjValid, coversId=mjCovers, accepts=mjAccepts, acceptsAny=mjAcceptsAny
+//@   ensures [rest_kept] result.(MajorityHeuristicParams).CurrentChoice == params.(MajorityHeuristicParams).CurrentChoice
+//@             && result.(MajorityHeuristicParams).RandomSeed == params.(MajorityHeuristicParams).RandomSeed
+//@             && result.(MajorityHeuristicParams).RandomAlternativesOrdering == params.(MajorityHeuristicParams).RandomAlternativesOrdering
+//@             && result.(MajorityHeuristicParams).DrawResolution == params.(MajorityHeuristicParams).DrawResolution
+
+//@ func (*MajorityBiasListener).RankCriteriaAscending
+//@   property C15 C07
+//@   refines model.BiasListener.RankCriteriaAscending with validParams=mjValid, coversId=mjCovers, imp=mjImportance
+//@   ensures [importance_is_weight] forall k int :: 0 <= k && k < len(*result) ==> (*result)[k].Weight == params.MethodParameters.(MajorityHeuristicParams).Weights[(*result)[k].Id]
+
+// importance of a criterion for this listener: its weight
+//@ spec mjImportance(l model.BiasListener, p *model.DecisionMakingParams, id string) real = p.MethodParameters.(MajorityHeuristicParams).Weights[id]
